@@ -72,11 +72,16 @@ def run(ctx):
     dsl.verify(ctx, repo, dsl.Registry(), "C15", C.APPEND, C.h_append, expect_covers=["append"])
     dsl.verify(ctx, repo, dsl.Registry(), "C15", C.SETUP, C.h_setup, expect_covers=["setup"])
     ctx.trust(*r.assumed)
-    ctx.trust("Layer 1 (Tree.to_dict / from_dict / copy over rustworkx) is covered by the bounded stand-in only", "pickle / gzip round trip is the identity (library axiom)",
+    from contracts import c06_graph as G
+
+    G.verify_roundtrip(ctx, repo, "C15")
+    ctx.trust("pickle / gzip round trip is the identity (library axiom)",
               "num_samples_data_point in {0,1,2} and num_samples_prune_regraph in {0,1} are enumerated concretely in the run-loop harness (defaults are 1)")
     ctx.extra["explanation"] = ("Deductive: one arbitrary iteration of the real _run_main_sampler for any num_iters / thin / print_freq / time limit: recorded iff i % thin == 0, once, "
                                 "after the moves, relabel_nodes and the concentration update, with alpha / log_p_one / tree all read from that same state; setup_trace records the "
-                                "post-burn-in tree first. Bounded: dict and pickle round trips after every enumerated edit (arrays, labels, densities, no sharing, one more edit); "
+                                "post-burn-in tree first. Tree.to_dict copies the edge list, both index maps and every data list; Tree.from_dict copies them again, adds the dummy root first, rebuilds "
+                                "one TreeNode per clone from its stored data list at its stored index, removes only unregistered indices and recomputes the recursion values last; copy() shares nothing. "
+                                "Bounded: dict and pickle round trips after every enumerated edit (arrays, labels, densities, no sharing, one more edit); "
                                 "real chains written by the real writer and read back.")
     run_edits(ctx, "C15", only=["roundtrip", "operation raised"])
     g = gzip_roundtrip(ctx.seed)
